@@ -41,7 +41,8 @@ pub fn scenario(seed: u64, k: usize) -> DispScenario {
     // /repo commit b470048, where `advance` then panicked; rejected by validation since 536e04e)
     if k % 25 == 24 {
         let l = sc.sp.fwd_idx[sc.sp.segs.len() / 2];
-        sc.sp.extra_lockout.push((l, sc.sp.n_links() + 3));
+        // n_links() is the length of the network: exactly one past the last link, then further out
+        sc.sp.extra_lockout.push((l, sc.sp.n_links() + [0, 3, 1][(k / 25) % 3]));
         sc.tags.push("malformed:lockout_out_of_range".into());
     }
     sc
